@@ -3,6 +3,7 @@ package rules
 import (
 	"fmt"
 	"go/ast"
+	"go/parser"
 	"go/token"
 	"go/types"
 	"strings"
@@ -32,9 +33,9 @@ func init() {
 		Run:   runR047,
 	})
 	core.Register(&core.Rule{
-		ID:    "R06.6",
-		Title: "required-field lists never share a backing array",
-		Text: "Every store to RequiredFields.fields is an append to the receiver's own (fresh) list, a make or a literal — never another list's slice: Add appends in place, so an aliased list lets two records overwrite each other's required fields.",
+		ID:      "R06.6",
+		Title:   "required-field lists never share a backing array",
+		Text:    "Every store to RequiredFields.fields is an append to the receiver's own (fresh) list, a make or a literal — never another list's slice: Add appends in place, so an aliased list lets two records overwrite each other's required fields.",
 		Props:   []string{"C06"},
 		Modules: []string{"v2"}, // the root module's RequiredFields is an immutable []string
 		Floor:   map[string]int{"v2": 2},
@@ -579,4 +580,650 @@ func runR116(c *core.Ctx) {
 		c.Check(len(problems) == 0 && delegations > 0, g.Rel, g.Name, "every delegated delete verdict is returned unless it is the sentinel", ud.Pos(), fmt.Sprintf("%d delegated calls", delegations),
 			strings.Join(dedupe(problems), "; ")+map[bool]string{true: "no delegated UnmarshalDeleteField call found", false: ""}[delegations == 0])
 	}
+}
+
+func init() {
+	core.Register(&core.Rule{
+		ID:    "R02.5",
+		Title: "paths are read in their encoded form only",
+		Text: "Package restli (non-test) never reads the decoded url.URL.Path (reads go through EscapedPath(), or RawPath where it is known to be set). URL.Path is decoded once by net/http and the ROR2 path reader decodes again; " +
+			"URL.RawPath is empty whenever Go's default encoding equals what was received, so a fallback to Path double-decodes keys like `100%` or `(1)`. Stores (clearing the fields of a base URL) are allowed.",
+		Props: []string{"C02", "C15"},
+		Floor: map[string]int{"v2": 2, "root": 2},
+		Run:   runR025,
+	})
+}
+
+func runR025(c *core.Ctx) {
+	const rel = "restli"
+	p := c.M.Pkg(rel)
+	inf := p.TypesInfo
+	reads, escaped := 0, 0
+	for _, file := range p.Syntax {
+		if strings.HasSuffix(c.M.Fset.File(file.Pos()).Name(), "_test.go") {
+			continue
+		}
+		par := core.Parents(file)
+		ast.Inspect(file, func(x ast.Node) bool {
+			switch y := x.(type) {
+			case *ast.CallExpr:
+				if f := core.Callee(inf, y); f != nil && core.IsMethod(f, "net/url", "URL", "EscapedPath") {
+					escaped++
+					c.OK(rel, enclosingFuncName(file, y.Pos()), fmt.Sprintf("path read #%d uses EscapedPath()", escaped), y.Pos(), "")
+				}
+			case *ast.SelectorExpr:
+				fv, ok := core.ObjOf(inf, y).(*types.Var)
+				if !ok || !fv.IsField() || fv.Pkg() == nil || fv.Pkg().Path() != "net/url" || fv.Name() != "Path" {
+					return true
+				}
+				// a store?
+				if as, ok := par[y].(*ast.AssignStmt); ok {
+					for _, l := range as.Lhs {
+						if l == ast.Expr(y) {
+							return true
+						}
+					}
+				}
+				reads++
+				c.Bad(rel, enclosingFuncName(file, y.Pos()), fmt.Sprintf("no read of URL.%s #%d", fv.Name(), reads), y.Pos(),
+					"reads "+core.ExprString(y)+": the decoded path reaches routing / key decoding instead of EscapedPath()")
+			}
+			return true
+		})
+	}
+	if escaped == 0 {
+		c.Unknown(rel, "-", "EscapedPath() call sites", token.NoPos, "none found: where does the server take the request path from?")
+	}
+}
+
+func init() {
+	core.Register(&core.Rule{
+		ID:    "R15.5",
+		Title: "the root resource is matched against the last, slash-normalised segment of the context path",
+		Text: "In formatQueryUrl every strings.* call whose pattern mentions the root resource name is one of the enumerated idioms — LastIndex (with R15.3's boundary test), HasSuffix or TrimSuffix — and its subject derives from a strings.TrimSuffix(…, \"/\") / TrimRight(…, \"/\") result; " +
+			"strings.Index / Contains / HasPrefix / TrimPrefix / Replace on the root name are reported: a first-occurrence search is hidden by an earlier segment that shares the prefix (/searcher/search), and matching before the trailing slash is removed misses /api/search/. " +
+			"Comparison of whole segments (== against elements of strings.Split) is accepted as well.",
+		Props: []string{"C15"},
+		Floor: map[string]int{"v2": 1, "root": 1},
+		Run:   runR155,
+	})
+	core.Register(&core.Rule{
+		ID:    "R15.6",
+		Title: "the resolver's URL is copied, never written through",
+		Text: "In formatQueryUrl and newRequest no assignment stores through a *url.URL (field store or *p = …): the base is cleared on a local struct copy (base := *hostUrl). " +
+			"Resolvers hand out the same pointer on every call, so a store through it strips the context path from every later request (and races with concurrent ones).",
+		Props: []string{"C15", "C17"},
+		Floor: map[string]int{"v2": 1, "root": 1},
+		Run:   runR156,
+	})
+}
+
+func runR155(c *core.Ctx) {
+	const rel = "restli"
+	inf := info(c, rel)
+	_, fd := mustDecl(c, rel, "(*Client).formatQueryUrl")
+	// the root variable: assigned from rp.RootResource()
+	var rootObj types.Object
+	defs := map[types.Object][]ast.Expr{}
+	ast.Inspect(fd.Body, func(x ast.Node) bool {
+		if as, ok := x.(*ast.AssignStmt); ok && len(as.Lhs) == len(as.Rhs) {
+			for i, l := range as.Lhs {
+				o := core.ObjOf(inf, l)
+				if o == nil {
+					continue
+				}
+				defs[o] = append(defs[o], as.Rhs[i])
+				if call, ok := core.Unparen(as.Rhs[i]).(*ast.CallExpr); ok {
+					if f := core.Callee(inf, call); f != nil && f.Name() == "RootResource" {
+						rootObj = o
+					}
+				}
+			}
+		}
+		return true
+	})
+	if rootObj == nil {
+		c.Unknown(rel, "(*Client).formatQueryUrl", "root resource variable", fd.Pos(), "no local assigned from RootResource()")
+		return
+	}
+	var normalised func(e ast.Expr, depth int) bool
+	normalised = func(e ast.Expr, depth int) bool {
+		found := false
+		ast.Inspect(e, func(x ast.Node) bool {
+			switch y := x.(type) {
+			case *ast.CallExpr:
+				f := core.Callee(inf, y)
+				if (core.IsFunc(f, "strings", "TrimSuffix") || core.IsFunc(f, "strings", "TrimRight")) && len(y.Args) == 2 {
+					if v := core.ConstOf(inf, y.Args[1]); v != nil && v.ExactString() == `"/"` {
+						found = true
+					}
+				}
+			case *ast.Ident:
+				if o := inf.Uses[y]; o != nil && depth < 4 {
+					for _, d := range defs[o] {
+						if normalised(d, depth+1) {
+							found = true
+						}
+					}
+				}
+			}
+			return !found
+		})
+		return found
+	}
+	n := 0
+	ast.Inspect(fd.Body, func(x ast.Node) bool {
+		call, ok := x.(*ast.CallExpr)
+		if !ok {
+			return true
+		}
+		f := core.Callee(inf, call)
+		if f == nil || f.Pkg() == nil || f.Pkg().Path() != "strings" || len(call.Args) < 2 {
+			return true
+		}
+		mentionsRoot := false
+		for _, a := range call.Args[1:] {
+			if mentions(inf, a, rootObj) {
+				mentionsRoot = true
+			}
+		}
+		if !mentionsRoot {
+			return true
+		}
+		n++
+		desc := fmt.Sprintf("root match #%d (strings.%s) looks at the last segment of a normalised path", n, f.Name())
+		switch f.Name() {
+		case "LastIndex", "HasSuffix", "TrimSuffix":
+			c.Check(normalised(call.Args[0], 0), rel, "(*Client).formatQueryUrl", desc, call.Pos(), "subject derives from TrimSuffix(…, \"/\")",
+				"the subject "+core.ExprString(call.Args[0])+" still carries the resolver's trailing slash when the root name is matched: a base ending in /"+"<root>/ keeps its root segment and the request has it twice")
+		default:
+			c.Bad(rel, "(*Client).formatQueryUrl", desc, call.Pos(), "strings."+f.Name()+" does not anchor the match at the last segment: an earlier segment sharing the root's prefix (/searcher/search) hides the final one")
+		}
+		return true
+	})
+	// whole-segment comparison idiom
+	ast.Inspect(fd.Body, func(x ast.Node) bool {
+		if be, ok := x.(*ast.BinaryExpr); ok && (be.Op == token.EQL || be.Op == token.NEQ) {
+			if core.ObjOf(inf, be.X) == rootObj || core.ObjOf(inf, be.Y) == rootObj {
+				n++
+				c.OK(rel, "(*Client).formatQueryUrl", fmt.Sprintf("root match #%d compares a whole segment", n), be.Pos(), "")
+			}
+		}
+		return true
+	})
+	if n == 0 {
+		c.Unknown(rel, "(*Client).formatQueryUrl", "root resource matching", fd.Pos(), "no expression matches the root resource name against the context path: how is a context ending in the root resource handled?")
+	}
+}
+
+func runR156(c *core.Ctx) {
+	const rel = "restli"
+	inf := info(c, rel)
+	for _, name := range []string{"(*Client).formatQueryUrl", "newRequest"} {
+		_, fd := mustDecl(c, rel, name)
+		var problems []string
+		stores := 0
+		ast.Inspect(fd.Body, func(x ast.Node) bool {
+			as, ok := x.(*ast.AssignStmt)
+			if !ok {
+				return true
+			}
+			for _, l := range as.Lhs {
+				var through ast.Expr
+				switch t := core.Unparen(l).(type) {
+				case *ast.StarExpr:
+					through = t.X
+				case *ast.SelectorExpr:
+					if fv, ok := core.ObjOf(inf, t).(*types.Var); ok && fv.IsField() {
+						through = t.X
+						stores++
+					}
+				}
+				if through == nil {
+					continue
+				}
+				if pt, ok := inf.Types[through].Type.(*types.Pointer); ok {
+					if nn := namedOf(pt.Elem()); nn != nil && nn.Obj().Pkg() != nil && nn.Obj().Pkg().Path() == "net/url" && nn.Obj().Name() == "URL" {
+						// a pointer this function created itself (url.Parse result, &local) is its own
+						if o := core.ObjOf(inf, through); o != nil && ownedURL(inf, fd, o) {
+							continue
+						}
+						problems = append(problems, c.M.Position(l.Pos())+": "+core.ExprString(l)+" stores through a *url.URL this function did not create")
+					}
+				}
+			}
+			return true
+		})
+		c.Check(len(problems) == 0, rel, name, "no store through a URL pointer obtained from elsewhere", fd.Pos(), fmt.Sprintf("%d field stores inspected", stores), strings.Join(problems, "; "))
+	}
+}
+
+// ownedURL: every assignment to o in fd is from url.Parse / (*URL).Parse / &local / new.
+func ownedURL(inf *types.Info, fd *ast.FuncDecl, o types.Object) bool {
+	n, ok := 0, true
+	ast.Inspect(fd.Body, func(x ast.Node) bool {
+		as, isAs := x.(*ast.AssignStmt)
+		if !isAs {
+			return true
+		}
+		for i, l := range as.Lhs {
+			if core.ObjOf(inf, l) != o {
+				continue
+			}
+			n++
+			var rhs ast.Expr
+			if len(as.Rhs) == len(as.Lhs) {
+				rhs = as.Rhs[i]
+			} else if len(as.Rhs) == 1 {
+				rhs = as.Rhs[0]
+			}
+			good := false
+			switch r := core.Unparen(rhs).(type) {
+			case *ast.CallExpr:
+				f := core.Callee(inf, r)
+				if core.IsFunc(f, "net/url", "Parse") || core.IsFunc(f, "net/url", "ParseRequestURI") || (f != nil && f.Name() == "formatQueryUrl") {
+					good = true
+				}
+				if id, isId := core.Unparen(r.Fun).(*ast.Ident); isId && id.Name == "new" {
+					good = true
+				}
+			case *ast.UnaryExpr:
+				if r.Op == token.AND {
+					good = true
+				}
+			}
+			if !good {
+				ok = false
+			}
+		}
+		return true
+	})
+	return ok && n > 0
+}
+
+func init() {
+	core.Register(&core.Rule{
+		ID:    "R17.7",
+		Title: "pooled objects do not outlive their Put",
+		Text: "In every non-test function of the module that hands a local object to (*sync.Pool).Put (directly or deferred), nothing that aliases the object — the object itself, a field of reference type, the result of a method on it that returns a slice, pointer, map or interface (bytes.Buffer.Bytes), a slice of those — " +
+			"is returned, assigned to a result variable, or stored outside the function's own locals. A later Get hands the same memory to another request, which then overwrites what the first caller still holds. " +
+			"A synthetic positive control (a function returning buf.Bytes() of a pooled buffer) must be recognised on every run.",
+		Props: []string{"C17", "C14"},
+		Floor: map[string]int{"v2": 1, "root": 1},
+		Run:   runR177,
+	})
+}
+
+// pooledEscapes lists the escapes of pooled objects in one function body.
+func pooledEscapes(fset interface {
+	Position(token.Pos) token.Position
+}, inf *types.Info, ftype *ast.FuncType, body *ast.BlockStmt) (puts int, problems []string) {
+	pooled := map[types.Object]bool{}
+	ast.Inspect(body, func(x ast.Node) bool {
+		if call, ok := x.(*ast.CallExpr); ok && len(call.Args) == 1 {
+			if f := core.Callee(inf, call); f != nil && core.IsMethod(f, "sync", "Pool", "Put") {
+				puts++
+				if o := core.ObjOf(inf, call.Args[0]); o != nil {
+					pooled[o] = true
+				}
+			}
+		}
+		return true
+	})
+	if len(pooled) == 0 {
+		return puts, nil
+	}
+	results := map[types.Object]bool{}
+	if ftype.Results != nil {
+		for _, f := range ftype.Results.List {
+			for _, n := range f.Names {
+				results[inf.Defs[n]] = true
+			}
+		}
+	}
+	isRef := func(t types.Type) bool {
+		if t == nil {
+			return false
+		}
+		switch t.Underlying().(type) {
+		case *types.Slice, *types.Pointer, *types.Map, *types.Interface, *types.Chan:
+			return true
+		}
+		return false
+	}
+	aliases := map[types.Object]bool{}
+	for o := range pooled {
+		aliases[o] = true
+	}
+	var alias func(e ast.Expr) bool
+	alias = func(e ast.Expr) bool {
+		switch y := core.Unparen(e).(type) {
+		case *ast.Ident:
+			return aliases[core.ObjOf(inf, y)]
+		case *ast.SliceExpr:
+			return alias(y.X)
+		case *ast.StarExpr:
+			return false // a copy of the pointee
+		case *ast.UnaryExpr:
+			return y.Op == token.AND && alias(y.X)
+		case *ast.SelectorExpr:
+			if fv, ok := core.ObjOf(inf, y).(*types.Var); ok && fv.IsField() {
+				return alias(y.X) && isRef(fv.Type())
+			}
+		case *ast.TypeAssertExpr:
+			return alias(y.X)
+		case *ast.CallExpr:
+			if tv, ok := inf.Types[y.Fun]; ok && tv.IsType() {
+				// conversion: string(b) copies, []byte(s) copies; named-slice conversions alias
+				if len(y.Args) == 1 && alias(y.Args[0]) {
+					if b, ok := tv.Type.Underlying().(*types.Basic); ok && b.Info()&types.IsString != 0 {
+						return false
+					}
+					return true
+				}
+				return false
+			}
+			if id, ok := core.Unparen(y.Fun).(*ast.Ident); ok && id.Name == "append" && len(y.Args) > 0 {
+				return alias(y.Args[0])
+			}
+			if sel, ok := core.Unparen(y.Fun).(*ast.SelectorExpr); ok && alias(sel.X) {
+				if sig, ok := inf.Types[y.Fun].Type.(*types.Signature); ok && sig.Results().Len() >= 1 {
+					return isRef(sig.Results().At(0).Type())
+				}
+			}
+		}
+		return false
+	}
+	isOwnLocal := func(l ast.Expr) (types.Object, bool) {
+		id, ok := core.Unparen(l).(*ast.Ident)
+		if !ok {
+			return nil, false
+		}
+		o := core.ObjOf(inf, id)
+		if o == nil || results[o] || o.Parent() == nil || o.Pkg() == nil || o.Parent() == o.Pkg().Scope() {
+			return o, false
+		}
+		return o, o.Pos() >= body.Pos() && o.Pos() <= body.End()
+	}
+	for changed := true; changed; {
+		changed = false
+		ast.Inspect(body, func(x ast.Node) bool {
+			if as, ok := x.(*ast.AssignStmt); ok && len(as.Lhs) == len(as.Rhs) {
+				for i, l := range as.Lhs {
+					if o, own := isOwnLocal(l); own && !aliases[o] && alias(as.Rhs[i]) {
+						aliases[o] = true
+						changed = true
+					}
+				}
+			}
+			return true
+		})
+	}
+	seen := map[string]bool{}
+	report := func(pos token.Pos, msg string) {
+		m := fmt.Sprintf("%s:%d: %s", shortFile(fset.Position(pos).Filename), fset.Position(pos).Line, msg)
+		if !seen[m] {
+			seen[m] = true
+			problems = append(problems, m)
+		}
+	}
+	ast.Inspect(body, func(x ast.Node) bool {
+		switch y := x.(type) {
+		case *ast.FuncLit:
+			return false
+		case *ast.ReturnStmt:
+			for _, r := range y.Results {
+				if alias(r) {
+					report(r.Pos(), "returns "+core.ExprString(r)+", which aliases an object handed back to the pool")
+				}
+			}
+		case *ast.AssignStmt:
+			if len(y.Lhs) != len(y.Rhs) {
+				return true
+			}
+			for i, l := range y.Lhs {
+				if _, own := isOwnLocal(l); !own && alias(y.Rhs[i]) {
+					if id, ok := core.Unparen(l).(*ast.Ident); ok && id.Name == "_" {
+						continue
+					}
+					report(l.Pos(), core.ExprString(l)+" = "+core.ExprString(y.Rhs[i])+" keeps memory of an object handed back to the pool")
+				}
+			}
+		}
+		return true
+	})
+	return puts, problems
+}
+
+func shortFile(name string) string {
+	if i := strings.LastIndex(name, "/"); i >= 0 {
+		return name[i+1:]
+	}
+	return name
+}
+
+func runR177(c *core.Ctx) {
+	funcs, puts := 0, 0
+	for _, p := range c.M.Roots {
+		inf := p.TypesInfo
+		rel := c.M.Rel(p.PkgPath)
+		for _, file := range p.Syntax {
+			if strings.HasSuffix(c.M.Fset.File(file.Pos()).Name(), "_test.go") {
+				continue
+			}
+			for _, d := range file.Decls {
+				fd, ok := d.(*ast.FuncDecl)
+				if !ok || fd.Body == nil {
+					continue
+				}
+				funcs++
+				n, problems := pooledEscapes(c.M.Fset, inf, fd.Type, fd.Body)
+				puts += n
+				if n > 0 {
+					c.Check(len(problems) == 0, rel, core.DeclName(fd), "nothing aliasing a pooled object leaves the function", fd.Pos(), fmt.Sprintf("%d Put calls", n), strings.Join(problems, "; "))
+				}
+			}
+		}
+	}
+	c.OK("-", "-", "functions scanned for sync.Pool.Put", token.NoPos, fmt.Sprintf("%d functions, %d Put calls", funcs, puts))
+	// positive control
+	const ctl = `package ctl
+import ("bytes"; "sync")
+var pool = sync.Pool{New: func() any { return new(bytes.Buffer) }}
+func leak(p []byte) (out []byte) {
+	b := pool.Get().(*bytes.Buffer)
+	b.Reset()
+	defer pool.Put(b)
+	b.Write(p)
+	out = b.Bytes()
+	return out
+}
+func fine(p []byte) string {
+	b := pool.Get().(*bytes.Buffer)
+	b.Reset()
+	defer pool.Put(b)
+	b.Write(p)
+	return b.String()
+}`
+	f, err := parser.ParseFile(c.M.Fset, "pool_control.go", ctl, 0)
+	if err != nil {
+		c.Unknown("-", "-", "positive control", token.NoPos, err.Error())
+		return
+	}
+	inf := &types.Info{Types: map[ast.Expr]types.TypeAndValue{}, Defs: map[*ast.Ident]types.Object{}, Uses: map[*ast.Ident]types.Object{}, Selections: map[*ast.SelectorExpr]*types.Selection{}}
+	imp := importerFunc(func(path string) (*types.Package, error) {
+		if p := c.M.AllByPath[path]; p != nil && p.Types != nil {
+			return p.Types, nil
+		}
+		return nil, fmt.Errorf("package %s not in the loaded closure", path)
+	})
+	if _, err := (&types.Config{Importer: imp}).Check("ctl", c.M.Fset, []*ast.File{f}, inf); err != nil {
+		c.Unknown("-", "-", "positive control", token.NoPos, "control does not type-check: "+err.Error())
+		return
+	}
+	got := map[string]int{}
+	for _, d := range f.Decls {
+		if fd, ok := d.(*ast.FuncDecl); ok && fd.Body != nil {
+			_, problems := pooledEscapes(c.M.Fset, inf, fd.Type, fd.Body)
+			got[fd.Name.Name] = len(problems)
+		}
+	}
+	c.Check(got["leak"] > 0 && got["fine"] == 0, "-", "-", "positive control: a pooled buffer's Bytes() escaping is recognised, String() is not reported", token.NoPos,
+		fmt.Sprintf("leak=%d fine=%d", got["leak"], got["fine"]), fmt.Sprintf("control verdicts leak=%d fine=%d", got["leak"], got["fine"]))
+}
+
+type importerFunc func(path string) (*types.Package, error)
+
+func (f importerFunc) Import(path string) (*types.Package, error) { return f(path) }
+
+func init() {
+	core.Register(&core.Rule{
+		ID:    "R17.8",
+		Title: "request-time closures write no variable captured at registration time",
+		Text: "In package restli every function literal that takes a *RequestContext, *http.Request or http.ResponseWriter (code that runs once per request, concurrently) " +
+			"never assigns, increments, takes the address of, or decodes into a variable declared outside itself (one instance shared by every request to that route): " +
+			"such a variable makes one request observe another's parameters and is a data race. Reads of captured configuration are fine.",
+		Props: []string{"C17"},
+		Floor: map[string]int{"v2": 10, "root": 10},
+		Run:   runR178,
+	})
+}
+
+func runR178(c *core.Ctx) {
+	const rel = "restli"
+	p := c.M.Pkg(rel)
+	inf := p.TypesInfo
+	isRequestScoped := func(ft *ast.FuncType) bool {
+		if ft.Params == nil {
+			return false
+		}
+		for _, f := range ft.Params.List {
+			t := inf.Types[f.Type].Type
+			if t == nil {
+				continue
+			}
+			s := t.String()
+			if strings.HasSuffix(s, "restli.RequestContext") || s == "*net/http.Request" || s == "net/http.ResponseWriter" {
+				return true
+			}
+		}
+		return false
+	}
+	n := 0
+	for _, file := range p.Syntax {
+		if strings.HasSuffix(c.M.Fset.File(file.Pos()).Name(), "_test.go") {
+			continue
+		}
+		var visit func(node ast.Node, inRequest bool)
+		visit = func(node ast.Node, inRequest bool) {
+			ast.Inspect(node, func(x ast.Node) bool {
+				fl, ok := x.(*ast.FuncLit)
+				if !ok || x == node {
+					return true
+				}
+				if inRequest || !isRequestScoped(fl.Type) {
+					visit(fl.Body, inRequest)
+					return false
+				}
+				n++
+				// fl is an outermost request-scoped closure
+				captured := func(e ast.Expr) types.Object {
+					r := rootIdent(e)
+					if r == nil {
+						return nil
+					}
+					v, ok := inf.Uses[r].(*types.Var)
+					if !ok || v.IsField() || v.Pkg() == nil || v.Parent() == v.Pkg().Scope() {
+						return nil // package-level state is R17.1's business
+					}
+					if v.Pos() >= fl.Pos() && v.Pos() <= fl.End() {
+						return nil
+					}
+					return v
+				}
+				var problems []string
+				ast.Inspect(fl.Body, func(y ast.Node) bool {
+					switch z := y.(type) {
+					case *ast.AssignStmt:
+						if z.Tok == token.DEFINE {
+							return true
+						}
+						for _, l := range z.Lhs {
+							if _, isIdent := core.Unparen(l).(*ast.Ident); !isIdent {
+								// a store through a captured pointer/map/slice: shared unless the base is request-local
+								if v := captured(l); v != nil && storeThroughReference(inf, l) {
+									problems = append(problems, c.M.Position(l.Pos())+": stores into "+core.ExprString(l)+" through the captured "+v.Name())
+								}
+								continue
+							}
+							if v := captured(l); v != nil {
+								problems = append(problems, c.M.Position(l.Pos())+": assigns the captured variable "+v.Name()+" (one instance for every request)")
+							}
+						}
+					case *ast.IncDecStmt:
+						if v := captured(z.X); v != nil {
+							problems = append(problems, c.M.Position(z.Pos())+": increments the captured variable "+v.Name())
+						}
+					case *ast.UnaryExpr:
+						if z.Op == token.AND {
+							if _, isLit := core.Unparen(z.X).(*ast.CompositeLit); !isLit {
+								if v := captured(z.X); v != nil {
+									problems = append(problems, c.M.Position(z.Pos())+": takes the address of the captured variable "+v.Name())
+								}
+							}
+						}
+					}
+					return true
+				})
+				c.Check(len(problems) == 0, rel, enclosingFuncName(file, fl.Pos()), fmt.Sprintf("request closure #%d writes only its own variables", ordinalIn(file, fl)), fl.Pos(), "", strings.Join(dedupe(problems), "; "))
+				return false
+			})
+		}
+		visit(file, false)
+	}
+	if n == 0 {
+		c.Unknown(rel, "-", "request-scoped closures", token.NoPos, "none found")
+	}
+}
+
+func init() {
+	core.Register(&core.Rule{
+		ID:    "R16.7",
+		Title: "complex keys are recognised before simple keys",
+		Text: "In NewBatchKeySet's type switch the ComplexKey[K] case precedes the SimpleKey[K] case. Generated complex keys carry both method sets (Equals/ComputeHash over key and $params, ComplexKeyEquals/ComputeComplexKeyHash over the key part only; confirmed in corpus t-ckey), " +
+			"and a type switch takes the first matching case: with SimpleKey first, keys equal up to $params are no longer duplicates and response keys (which carry no $params) are not found.",
+		Props: []string{"C16"},
+		Floor: map[string]int{"v2": 1, "root": 1},
+		Run:   runR167,
+	})
+}
+
+func runR167(c *core.Ctx) {
+	const rel = "restli/batchkeyset"
+	inf := info(c, rel)
+	_, fd := mustDecl(c, rel, "NewBatchKeySet")
+	ck, _ := mustObj(c, rel, "ComplexKey").(*types.TypeName)
+	sk, _ := mustObj(c, rel, "SimpleKey").(*types.TypeName)
+	pos := map[*types.TypeName]int{}
+	n := 0
+	ast.Inspect(fd.Body, func(x ast.Node) bool {
+		ts, ok := x.(*ast.TypeSwitchStmt)
+		if !ok {
+			return true
+		}
+		for i, cl := range ts.Body.List {
+			for _, e := range cl.(*ast.CaseClause).List {
+				if nn := namedOf(inf.Types[e].Type); nn != nil {
+					if _, seen := pos[nn.Obj()]; !seen {
+						pos[nn.Obj()] = i + 1
+					}
+				}
+			}
+		}
+		n++
+		return true
+	})
+	c.Check(n == 1 && pos[ck] > 0 && pos[sk] > 0 && pos[ck] < pos[sk], rel, "NewBatchKeySet", "the ComplexKey case precedes the SimpleKey case", fd.Pos(),
+		fmt.Sprintf("ComplexKey is case %d, SimpleKey is case %d", pos[ck], pos[sk]),
+		fmt.Sprintf("type switches=%d, ComplexKey is case %d, SimpleKey is case %d: a complex key is treated as a simple key and compared including $params", n, pos[ck], pos[sk]))
 }
